@@ -3,6 +3,12 @@
 proof side     : Props/C12.lean (pol_heun_formula, pol_boundary_rule, pol_impl_feet_in_domain,
                  pol_constant_potential_identity, pol_rigid_rotation, pol_impl_fixed_point_stops,
                  pol_impl_terminates_partial) over Model/PolAdv.lean.
+                 Props/C12Gen.lean (tie by translation of the EXPLICIT step: Generated/PolExplGen.lean = `general_poloidal_advection_step_expl`
+                 regenerated from the source on every run; float `%` = a - b*floor(a/b), `pi` a parameter, the spline evaluators and f_eq
+                 uninterpreted; gen_pol_expl_eq: for every node the generated function stores Model `finalVal` of Model `explFoot` (Evals
+                 instantiated with the uninterpreted functions, wrap = x % (2*pi); contract: the eval_spline_2d_cross tables equal the
+                 scalar evaluator at the nodes), entries outside the box untouched; gen_pol_expl_heun_inside carries pol_heun_formula /
+                 pol_boundary_rule over to the source).  The implicit step is tied by differential testing only.
 correspondence : real `PoloidalAdvection.step(f, dt, phi, v)` (explicitTrap True/False, nulEdge True/False) vs. the model at Q
                  (Drivers/C11.lean, op "pol").  The model receives the coefficients of the real phi spline and of the real
                  interpolant of the old f and evaluates them exactly; `x % (2*pi)` is `x - P*floor(x/P)` with P the double
@@ -29,7 +35,7 @@ import common
 common.use_repo()
 sys.set_int_max_str_digits(0)
 
-LEVEL = 'other'
+LEVEL = 'proof'
 U = 2.0 ** -53
 MARGIN = Fr(1, 2 ** 40)
 TWOPI = 2 * math.pi
@@ -639,7 +645,9 @@ def run(chk):
                        'implicit scheme) are Lean theorems over abstract spline evaluators; "agree to third order in dt" and termination of '
                        'the fixed-point iteration are analytic and are measured as tests; the model is tied to the code by differential '
                        'testing (exact rationals with evaluator arguments / carried iterates rounded to 2^-80; own termination decision).')
-    chk.proof_side(build=not getattr(chk, 'no_build', False), extra_props=('C12Extra',))
+    # Props/C12Gen.lean is about Generated/PolExplGen.lean = the explicit step as the source says it NOW: regenerate it first
+    common.run_translator(chk, 'translate_pure.py', '--only', 'polexpl')
+    chk.proof_side(build=not getattr(chk, 'no_build', False), extra_props=('C12Extra', 'C12Gen'))
     C = Constants()
     drv = common.LeanDriver('C11.lean')
     try:
